@@ -117,6 +117,13 @@ def run(chk: Check):
         cfg = gen_cfg(rng, k_samplers=rng.choice([2, 3, 5, 9]))
         cfg["sched"] = "rl" if i % 4 == 3 else "rr"
         n = rng.randint(2, 6)
+        if i % 4 == 1:
+            # non-finite losses in the history (a diverging simulation): samplers that tolerate them, and always a history-driven one
+            cfg["loss"] = "infmix"
+            cfg["lineup"] = [("HaltonSampler", 4, None)] + [(rng.choice(["BestBatchSampler", "RandomUniformSampler", "ParticleSwarmSampler", "XGBoostSampler", "RSequenceSampler"]), rng.randint(2, 3), None)
+                                                            for _ in range(rng.randint(1, 3))] + [("BestBatchSampler", 2, None)]
+            n = rng.randint(4, 7)
+            chk.count("loss:infmix")
         base, rets, _ = twin.run_segments(cfg, [(n, "end")], use_folder=False)
         other = copy.deepcopy(cfg)
         changed = []
@@ -130,9 +137,17 @@ def run(chk: Check):
         if rng.random() < 0.7:
             other["lineup"] = [(nm, bs, rng.randrange(10 ** 4)) for (nm, bs, _) in cfg["lineup"]]; changed.append("ctor_seeds")
             other["agent_ctor_seed"] = rng.randrange(100)
+        if cfg["loss"] == "infmix" and "verbose" not in changed:
+            other["verbose"] = True; changed.append("verbose")
         if not changed:
             other["verbose"] = True; changed.append("verbose")
-        h, r, _ = twin.run_segments(other, [(n, "end")], use_folder=use_folder)
+        try:
+            h, r, _ = twin.run_segments(other, [(n, "end")], use_folder=use_folder)
+        except Exception as e:  # noqa: BLE001  (the base run completed: an exception here is a dependence on the nuisance inputs)
+            chk.case(["pair", cfg, other, n], len(changed) >= 2, {"lineup": [x[0] for x in cfg["lineup"]], "varied": changed, "raised": type(e).__name__})
+            chk.fail(f"the run with {changed} changed raised {type(e).__name__}: {str(e)[:100]} while the base run completed",
+                     {"case": {"kind": "pair", "cfg": cfg, "other": other, "n": n, "folder": use_folder}})
+            continue
         bad = twin.same_history(base, h)
         chk.case(["pair", cfg, other, n], len(changed) >= 2, {"lineup": [x[0] for x in cfg["lineup"]], "sched": cfg["sched"], "loss": cfg["loss"], "batches": n, "varied": changed})
         for c in changed:
@@ -167,8 +182,11 @@ def replay(path: Path) -> int:
         for k in ("cfg", "other"):
             c[k]["lineup"] = [tuple(x) for x in c[k]["lineup"]]
         base, _, _ = twin.run_segments(c["cfg"], [(c["n"], "end")], use_folder=False)
-        h, _, _ = twin.run_segments(c["other"], [(c["n"], "end")], use_folder=c["folder"])
-        fails = bool(twin.same_history(base, h))
+        try:
+            h, _, _ = twin.run_segments(c["other"], [(c["n"], "end")], use_folder=c["folder"])
+            fails = bool(twin.same_history(base, h))
+        except Exception:  # noqa: BLE001
+            fails = True
         print("REPLAY", fi["what"][:120], "->", "still fails" if fails else "passes now")
         bad += fails
     return 1 if bad else 0
